@@ -8,7 +8,7 @@ RULE = ("generated programs of 2-9 statements (definitions over scalars/matrices
         "per case two fresh interpreters: k single steps vs one request for k steps; non-trivial = distinct program x k judged ok")
 ASSUMPTIONS = [
     "hash-map iteration order differs between the two interpreters of one case (each HashMap instance gets fresh RandomState keys); "
-    "cross-process runs are covered because every ./check invocation is a new process and replay corpus cases re-run",
+    "for every second case the second interpreter runs in a separate OS process (child `mvh stepb`), so process-wide state differs too",
     "the dataflow of a plan is read back from the Debug text of each step (field `out` = output cell, other addressed fields = operands); "
     "steps whose text is not of that form make the plan 'not recognised' (the value comparison still decides)",
 ]
@@ -71,8 +71,8 @@ def generate(tier, rng):
         has_assign = any((" = " in s and ":=" not in s) or any(op in s for op in [" += ", " -= ", " *= ", " /= "]) for s in stmts)
         k = rng.choice([0, 1, 1, 2, 3, 4])
         src = "\n".join(stmts)
-        yield dict(sx=sx(["step", 1 if has_assign else 0, k, q(src)]), impl=dict(src="\n".join(stmts), k=k, plan=1),
-                   tags=dict(assign=int(has_assign), k=k, nstmts=len(stmts)))
+        yield dict(sx=sx(["step", 1 if has_assign else 0, k, q(src)]), impl=(dict(src="\n".join(stmts), k=k, plan=1, xproc=1) if i % 2 == 0 else dict(src="\n".join(stmts), k=k, plan=1)),
+                   tags=dict(assign=int(has_assign), k=k, nstmts=len(stmts), second_interpreter=("child-process" if i % 2 == 0 else "same-process")))
 
 
 def shrink(case):
